@@ -365,7 +365,9 @@ def execute(record):
                 if kind == "path" and outcome == "ok":
                     res.probe("paths_run")
                 if kind != "mutate_data" and (not np.array_equal(Xo, before[0]) or (Ao is not None and not np.array_equal(Ao, before[1]))):
-                    raise HarnessError("training data mutated during the run (C12 territory); C10 oracle unreliable")
+                    # the library changed the caller's array: that is C12's statement; C10 stops judging this run
+                    res.probe("caller_data_modified_seen_run_abandoned")
+                    break
         if log.counts.get("BATCH", 0) == 0 and not res.violations:
             res.probe("seam_silent_in_run")   # decided over the whole batch by the runner (KEY_EVENT)
     except SimBudget as e:
